@@ -18,6 +18,7 @@ GENS = {"Pts": lambda r, s, c: r.uniform(0.1, 3.0, size=s)}
 SHAPES = {
     "tri": dict(dims=2, npts=3, vertices=[0, 1, 2], simplices=[[0, 1, 2]]),
     "quad": dict(dims=2, npts=5, vertices=[0, 1, 2, 3], simplices=[[0, 1, 2], [0, 2, 3]]),   # point 4 interior (not a vertex)
+    "quad-interior-first": dict(dims=2, npts=5, vertices=[1, 2, 3, 4], simplices=[[0, 1, 2], [0, 2, 3]]),  # point 0 interior: hull indices != cloud indices
     "tet2": dict(dims=3, npts=5, vertices=[0, 1, 2, 3, 4], simplices=[[0, 1, 2, 3], [1, 2, 3, 4]]),
 }
 
@@ -36,7 +37,7 @@ def sample_post(vc, cfg):
     if vc.symbolic:
         vc.hints["hull_vertices"] = sh["vertices"]
         vc.hints["delaunay_simplices"] = sh["simplices"]
-        vc.hints["hull"] = lambda Pc: None if False else ("full", list(range(dims + 1)))
+        vc.hints["hull"] = lambda Pc: ("full", list(range(dims + 1)))
         # general position of the first d+1 points (qhull precondition) -- and non-degenerate simplices (positive volume)
         from pyvc.symnp import _det
 
@@ -48,6 +49,7 @@ def sample_post(vc, cfg):
             return _det(M)
 
         vc.assume(vc.not_(vc.eq(edge_det(list(range(dims + 1)), Pts), 0)))
+        vc.assume(vc.not_(vc.eq(edge_det([sh["vertices"][i] for i in range(dims + 1)], Pts), 0)))
         hullpts = [sh["vertices"][i] for i in range(len(sh["vertices"]))]
         for s_ in sh["simplices"]:
             vc.assume(vc.not_(vc.eq(edge_det([hullpts[i] for i in s_], Pts), 0)))
@@ -145,11 +147,12 @@ def volumes_and_weights(vc, cfg):
     from pyvc.symnp import _det
     from pyvc import symsci
 
-    M0 = np.empty((dims, dims), dtype=object)
-    for r_ in range(dims):
-        for j in range(dims):
-            M0[r_, j] = Pts[r_, j] - Pts[dims, j]
-    vc.assume(vc.not_(vc.eq(_det(M0), 0)))
+    for idx in (list(range(dims + 1)), [sh["vertices"][i] for i in range(dims + 1)]):
+        M0 = np.empty((dims, dims), dtype=object)
+        for r_ in range(dims):
+            for j in range(dims):
+                M0[r_, j] = Pts[idx[r_], j] - Pts[idx[dims], j]
+        vc.assume(vc.not_(vc.eq(_det(M0), 0)))
     rng = symsci.Generator(7)
     o = vc.call(S.sample_in_hull, Pts, 1, seed=rng)
     if not vc.returns("terminates-normally", o):
@@ -220,11 +223,19 @@ def estimator_sampling(vc, cfg):
         if vc.returns("l1-terminates", o):
             vc.prove("l1: chromatic image of the non-zero gamut points", vc.eq_arr(seen["dimred"], Pg))
             vc.prove("l1: mapped back with the requested total", o.value == "rows-with-L1" and seen["c2b"][1] == 2.5 and np.asarray(seen["c2b"][0]).shape == (4, nf - 1))
+        # a gamut that contains the exact zero capture (lb = 0, no baseline): the zero point has no chromaticity and must be dropped
+        from pyvc.sym import to_symarray
+
+        Pz = to_symarray(np.vstack([np.zeros((1, nf)), np.asarray(Pg, dtype=object)]))
+        est._get_P_from_A = lambda relative=True, bounded=None, remove_zero=False: Pz
+        o = vc.call(est.sample_in_hull, 3, seed=1, l1=1.5)
+        if vc.returns("l1(zero point)-terminates", o):
+            vc.prove("l1: the zero-intensity gamut point is removed before the chromatic reduction", vc.eq_arr(seen["dimred"], Pg), detail=str(np.asarray(seen["dimred"]).shape))
 
 
 def _cfgs(tier):
     out = []
-    for shape, n, engine in (("tri", 2, None), ("quad", 2, None), ("quad", 2, "Halton"), ("tri", 3, "Sobol")):
+    for shape, n, engine in (("tri", 2, None), ("quad", 2, None), ("quad-interior-first", 2, None), ("quad", 2, "Halton"), ("tri", 3, "Sobol")):
         out.append(dict(shape=shape, n=n, engine=engine, seed=11))
     if tier != "quick":
         out += [dict(shape="tet2", n=2, engine=None, seed=5), dict(shape="quad", n=3, engine="LHC", seed=2), dict(shape="tet2", n=2, engine="Halton", seed=5)]
@@ -233,6 +244,6 @@ def _cfgs(tier):
 
 CONTRACTS = [
     Contract(P, "sample_in_hull.membership", sample_post, _cfgs, ["dreye.api.sampling.sample_in_hull"], gens=GENS, native_samples=2, timeout_s=40, max_paths=3000, doc=sample_post.__doc__),
-    Contract(P, "sample_in_hull.sampler-parameters", volumes_and_weights, lambda t: [dict(shape="quad")] + ([dict(shape="tet2")] if t != "quick" else []), ["dreye.api.sampling.sample_in_hull"], native_samples=0, doc=volumes_and_weights.__doc__),
+    Contract(P, "sample_in_hull.sampler-parameters", volumes_and_weights, lambda t: [dict(shape="quad"), dict(shape="quad-interior-first")] + ([dict(shape="tet2")] if t != "quick" else []), ["dreye.api.sampling.sample_in_hull"], native_samples=0, doc=volumes_and_weights.__doc__),
     Contract(P, "estimator.sample_in_hull", estimator_sampling, lambda t: [{}], ["dreye.api.estimator.ReceptorEstimator.sample_in_hull"], native_samples=0, doc=estimator_sampling.__doc__),
 ]
